@@ -522,6 +522,12 @@ func (s *Server) routeValidate(w http.ResponseWriter, r *http.Request) {
 			w.WriteHeader(http.StatusBadRequest)
 			return
 		}
+		if hashAware, ok := gateKeeper.(interface {
+			GetFileVersionStatus(relPath, hash string, sent time.Time) int
+		}); ok && f.Hash != "" {
+			respMap[f.Name] = hashAware.GetFileVersionStatus(f.GetName(), f.Hash, f.GetStarted())
+			continue
+		}
 		respMap[f.Name] = gateKeeper.GetFileStatus(f.GetName(), f.GetStarted())
 	}
 	respJSON, _ := json.Marshal(respMap)
